@@ -174,6 +174,12 @@ class ChunksIt:
     def __init__(self, root, proj, n, pos, total):
         self.root, self.proj, self.n, self.pos, self.total = root, proj, n, pos, total
 
+    def iter_next(self, I, where):
+        if self.pos < self.total:
+            ln = min(self.n, self.total - self.pos)
+            return Opt('some', Ref(self.root, list(self.proj) + [['off', self.pos, ln]])), ChunksIt(self.root, self.proj, self.n, self.pos + self.n, self.total)
+        return Opt('none', TOP), self
+
 
 class Either:
     """Payload of an undecided two-variant value (Option / Result / ControlFlow): `first` is what variant 0 carries
@@ -831,6 +837,8 @@ class Interp:
         self.switch_hook = None    # (fr, term, dv, pth) -> target bb | None : assumed branch outcomes
         self.opaque_sites = []
         self.call_sites = 0
+        self.ty_subst = {}         # generic parameter name -> concrete type, inside an inlined generic callee
+        self.shared_keys = ()      # store roots that inlined callees / closures share with their caller (e.g. a stream position)
         self.fork_inlined = False  # paths of an inlined callee become paths of the caller (else: havoc)
         self._fork_ctx = None
         self.body_override = {}    # path -> Body (e.g. with private helpers inlined, see inline.py)
@@ -1236,10 +1244,34 @@ class Interp:
             fr.storev(dst, TOP)
 
     # ------------------------------------------------------------ calls
+    def _subst_callee(self, c):
+        import re
+        if not self.ty_subst or c is None:
+            return c
+        pat = re.compile(r'\b(' + '|'.join(re.escape(k) for k in self.ty_subst) + r')\b')
+
+        def sub_(x):
+            if isinstance(x, str):
+                return pat.sub(lambda m: self.ty_subst[m.group(1)], x)
+            if isinstance(x, list):
+                return [sub_(y) for y in x]
+            return x
+        c2 = dict(c)
+        for k in ('self_ty', 'targs', 'res_targs'):
+            if k in c2:
+                c2[k] = sub_(c2[k])
+        # a trait method on a now-concrete self type: resolve to the local impl when there is one
+        if c2.get('trait') and c2.get('self_ty') and not c2.get('res') and c2.get('name'):
+            m = self.facts.resolve_method(c2['trait'], c2['self_ty'], c2['name'])
+            if m and self.facts.fn(m) is not None:
+                c2['res'] = m
+                c2['res_local'] = True
+        return c2
+
     def _call(self, fr, t, pth):
         self.call_sites += 1
         self._cur_frame = fr
-        c = callee(t)
+        c = self._subst_callee(callee(t))
         dest = t['dest']
         args = t['args']
         if c is None:
@@ -1486,6 +1518,8 @@ class Interp:
         sub.cast_hook = self.cast_hook
         sub.body_override = self.body_override
         sub.fork_inlined = self.fork_inlined
+        sub.shared_keys = self.shared_keys
+        sub.ty_subst = dict(self.ty_subst)
         if self.propagate_hooks:
             sub.binop_hook = self.binop_hook
             sub.propagate_hooks = True
@@ -1541,6 +1575,9 @@ class Interp:
             return v
         args = [reroot(a, 'arg%d' % i) for i, a in enumerate(args)]
         sub = self._sub()
+        for k_ in self.shared_keys:
+            if k_ in fr.store:
+                extra[k_] = fr.store[k_]
         results = sub.run(path, [first] + list(args), extra=extra)
         self.steps = sub.steps
         self.fresh = sub.fresh
@@ -1549,6 +1586,9 @@ class Interp:
         if len(results) != 1:
             raise NotDerivable('closure %s does not evaluate to a single value on a modelled item (%d paths)' % (path, len(results)), where)
         pth2, ret, outs = results[0]
+        for k_ in self.shared_keys:
+            if k_ in outs:
+                fr.store[k_] = outs[k_]
         for key, v in back:
             if key in outs:
                 fr.store[v.root] = fr._update(fr.store.get(v.root), list(v.proj), outs[key]) if v.proj else outs[key]
@@ -1664,7 +1704,16 @@ class Interp:
             else:
                 cargs.append(fr.operand(a))
         sub = self._sub()
-        results = sub.run(res, cargs)
+        cf_ = self.facts.fn(res) or {}
+        names = [n_ for n_ in (cf_.get('generic_names') or []) if not n_.startswith("'")]
+        cc_ = self._subst_callee(callee(t)) or {}
+        targs_ = [a_ for a_ in (cc_.get('res_targs') or cc_.get('targs') or []) if not a_.startswith("'")]
+        if names and len(names) == len(targs_):
+            for n_, a_ in zip(names, targs_):
+                if n_ != a_:
+                    sub.ty_subst[n_] = a_
+        shared = {k_: fr.store[k_] for k_ in self.shared_keys if k_ in fr.store}
+        results = sub.run(res, cargs, extra=shared or None)
         self.steps = sub.steps
         self.fresh = sub.fresh
         self.call_sites += sub.call_sites
@@ -1674,6 +1723,9 @@ class Interp:
 
         def apply(frame, r):
             p2, ret, outs = r
+            for k_ in self.shared_keys:
+                if k_ in outs:
+                    frame.store[k_] = outs[k_]
             for i, a in enumerate(t['args']):
                 ty = cbody.local_ty(i + 1)
                 if ty.startswith('&mut') and (i + 1) in outs:
